@@ -50,7 +50,17 @@ func c06Reader() {
 		var f *ref.Frame
 		var d *ref.MsgDef
 		if withDialect && dsim.Choose(3) != 2 {
-			f, d, _ = genDialectFrame(true)
+			var vals ref.Values
+			f, d, vals = genDialectFrame(true)
+			if dsim.Choose(2) == 1 {
+				// a sender that does not truncate, pads, or leaves bytes after a string's NUL: the
+				// signature covers the bytes as sent
+				var canon bool
+				f.Payload, canon, _ = genEncoding(d, vals, true)
+				if !canon {
+					count("cov:signed-non-canonical-payload")
+				}
+			}
 		} else {
 			f = genRawFrame(true, false)
 			for withDialect && ref.DefByID(ref.HarnessDefs, f.MsgID) != nil {
@@ -104,10 +114,22 @@ func c06Reader() {
 	for i := 0; i < nseg; i++ {
 		var b []byte
 		deliver := false
-		switch dsim.Choose(7) {
+		switch dsim.Choose(8) {
 		case 0, 1:
 			b = mk().Encode()
 			deliver = true
+		case 7: // padded after signing by someone without the key: zero bytes appended, length and checksum adjusted
+			g := mk()
+			d := ref.DefByID(ref.HarnessDefs, g.MsgID)
+			if !withDialect || d == nil || len(g.Payload) >= 255 {
+				g.Timestamp += 1 + uint64(dsim.Choose(1000))
+				count("fault:restamped")
+			} else {
+				g.Payload = append(append([]byte(nil), g.Payload...), make([]byte, 1+dsim.Choose(255-len(g.Payload)))...)
+				g.Checksum = g.ComputeChecksum(d.CRCExtra())
+				count("fault:padded-after-signing")
+			}
+			b = g.Encode()
 		case 2: // v1 frame
 			g := genRawFrame(false, false)
 			for withDialect && ref.DefByID(ref.HarnessDefs, g.MsgID) != nil {
@@ -292,7 +314,7 @@ func init() {
 			}
 			return false
 		},
-		ProbeUniverse: []string{"fault:single-bit-tamper", "fault:v1-on-signed-link", "fault:unsigned-v2", "fault:wrong-key", "fault:forged-signature", "fault:restamped"},
+		ProbeUniverse: []string{"fault:padded-after-signing", "cov:signed-non-canonical-payload", "fault:single-bit-tamper", "fault:v1-on-signed-link", "fault:unsigned-v2", "fault:wrong-key", "fault:forged-signature", "fault:restamped"},
 		Real:          []string{"pkg/frame (Reader with InKey, Writer.WriteMessage with OutKey)", "pkg/streamwriter", "pkg/dialect", "pkg/message"},
 		Stub:          []string{"tampering link", "fake clock (synctest)", "reference SHA-256 signature as oracle"},
 	})
